@@ -58,6 +58,16 @@ pub fn dead_code_elimination(function: &il::Function) -> Result<il::Function, Er
                         function,
                         il::RefFunctionLocation::Instruction(block, instruction),
                     );
+                    // Everything that reaches the instruction is live, and
+                    // for an intrinsic that overwrites scalars this is what
+                    // leaves its predecessors, not what leaves the intrinsic.
+                    for predecessor in rpl.backward()? {
+                        if let Some(predecessor_rd) = rd.get(&predecessor.into()) {
+                            predecessor_rd.locations().iter().for_each(|location| {
+                                live.insert(location.function_location().clone());
+                            });
+                        }
+                    }
                     rd[&rpl.into()].locations().iter().for_each(|location| {
                         live.insert(location.function_location().clone());
                     });
